@@ -237,6 +237,17 @@ def sizes(pr):
     return out
 
 
+def canaries(pr):
+    def phantom_language(pr):
+        return [A.bvc("canary", "matrix", "jp_ships_language_xx", "xx" in languages_shipped(pr, "jp"), "src/rp2/plugin/country/jp.py")]
+
+    def too_small(pr):
+        import z3
+        from pyvc.base import VC
+        Y, B, G, H = z3.Ints("n_yearly n_balances n_fractions n_holders")
+        return [VC("canary", "size", "tax_sheet_fits_without_counting_holders", [x >= 0 for x in (Y, B, G, H)] + [H <= B], (3 + Y) + 2 + (3 + B + H) + 2 + 4 + 2 + (3 + G) <= 40 + Y + B + G, "", 0)]
+    return [("phantom_language_must_fail", phantom_language), ("size_without_holders_must_fail", too_small)]
+
 MANIFEST_ENTRY = {
     "category": "other",
     "text": ("The option matrix (country x method x generator x shipped language, defaults included) enumerated from the AST-evaluated plugin literals and the "
